@@ -1442,6 +1442,9 @@ class Engine:
             return self.eval(e.body)
         if z3.is_false(c):
             return self.eval(e.orelse)
+        if not self.in_spec and any(isinstance(x, ast.Constant) and isinstance(x.value, (str, bytes)) for x in (e.body, e.orelse)):
+            # text-valued alternatives (e.g. a struct format chosen by the box version) cannot be merged: one path each
+            return self.eval(e.body) if self.branch(c) else self.eval(e.orelse)
         failed = {}
         vals = {}
         for key, cond, node in (('a', c, e.body), ('b', z3.Not(c), e.orelse)):
